@@ -22,7 +22,8 @@
      traverse_bf_ltr_ttb and traverse_df_ltr_btt (any passed filter; the latter keeps the given root), run without ambient
        filter, = level order / post-order restricted to matching nodes;
        the three orders are permutations of the subtree's nodes,
-     _sort_nodes_in_document_order (no ambient filter, tag nodes of the tree) = the offered nodes in document order,
+     _sort_nodes_in_document_order = the offered tag nodes in document order (also under an ambient filter as long as no
+       hidden node holds an offered node); the three traversers are stated exactly under every ambient filter,
      fetch_following / fetch_preceding = heads of the axes,
      full_text (= content of the D-visible text descendants in document order; the node's own content for a text node);
      and on the plain tree: child exactly once at its index, parent <-> child, inverse siblings, descendants = pre-order
@@ -32,7 +33,7 @@
 From Coq Require Import List NArith ZArith Bool Permutation.
 From Delb.Base Require Import PyStr.
 From Delb.Tree Require Import ATree ITree ANav ANavFacts ANavOrderFacts.
-From Delb.Conc Require Import CTree CNav CHeapFacts CWalkFacts CNavFacts.
+From Delb.Conc Require Import CTree CNav CHeapFacts CWalkFacts CNavFacts CDocFacts.
 Import ListNotations.
 
 (* the abstraction keeps every object, in document order: identities of the plain tree = objects of the concrete one *)
@@ -201,6 +202,25 @@ Theorem C05_following_passed_filters : forall c inh, el_ok c = true -> NoDup (ce
 Proof. exact c_following_passed. Qed.
 Print Assumptions C05_following_passed_filters.
 
+(* under an ambient filter D: traverse_bf_ltr_ttb walks level by level through the D-visible children (`lvg` over
+   `vis_children`, `d` levels, the next level is empty) and applies the passed filters to every node, the root included *)
+Theorem C05_traverse_bf_ambient : forall c inh, el_ok c = true -> NoDup (cel_ids c) ->
+  forall D F n, In n (ids (abs_el inh c)) ->
+  exists d, lvg (vis_children (abs_el inh c) D) d (vis_children (abs_el inh c) D n)
+            = lvg (vis_children (abs_el inh c) D) (S d) (vis_children (abs_el inh c) D n)
+    /\ c_traverse_bf c D F n
+       = Ok ((if F n then [n] else []) ++ filter F (lvg (vis_children (abs_el inh c) D) d (vis_children (abs_el inh c) D n))).
+Proof. exact c_traverse_bf_ambient. Qed.
+Print Assumptions C05_traverse_bf_ambient.
+(* the sorter under an ambient filter D: indexes are positions among the visible siblings; as long as no hidden node
+   below the root holds an offered node the result is the same document order (otherwise `index` raises InvalidCodePath) *)
+Theorem C05_sort_ambient : forall c inh, el_ok c = true -> NoDup (cel_ids c) ->
+  forall D l, (forall n, In n l -> In n (ids (abs_el inh c)) /\ h_is_tag (heap_top c) n = true) ->
+  (forall x, In x (flat_map subtrees (ikids (abs_el inh c))) -> D (iid x) = false -> forall n, In n l -> ~ In n (ids x)) ->
+  c_sort c D l = Ok (a_doc_sort (abs_el inh c) l).
+Proof. exact c_sort_ambient. Qed.
+Print Assumptions C05_sort_ambient.
+
 (* full_text *)
 Theorem C05_full_text : forall c inh, el_ok c = true -> NoDup (cel_ids c) ->
   forall D n, In n (ids (abs_el inh c)) ->
@@ -208,6 +228,59 @@ Theorem C05_full_text : forall c inh, el_ok c = true -> NoDup (cel_ids c) ->
                           else a_text_concat (abs_el inh c) (filter D (a_descendants (abs_el inh c) n))).
 Proof. exact c_full_text_abs. Qed.
 Print Assumptions C05_full_text.
+
+(* ---- documents: prologue nodes, root element, epilogue nodes are siblings of each other and have no parent.
+   `heap_doc docid d` = object graph of the document, `abs_el inh (doc_cel docid d)` = the tree with a virtual document
+   node `docid` above the root-level nodes.  Hypotheses: the virtual tree is well-formed, identities (docid included)
+   are unique. ---- *)
+Theorem C05_doc_siblings : forall docid d, el_ok (doc_cel docid d) = true -> NoDup (cel_ids (doc_cel docid d)) ->
+  forall inh D F n, In n (ids (abs_el inh (doc_cel docid d))) ->
+    h_fetch_following_sibling (heap_doc docid d) D F n = Ok (hd_error (filter (fand D F) (a_fsibs (abs_el inh (doc_cel docid d)) n)))
+    /\ h_fetch_preceding_sibling (heap_doc docid d) D F n = Ok (hd_error (filter (fand D F) (a_psibs (abs_el inh (doc_cel docid d)) n))).
+Proof. exact doc_siblings. Qed.
+Print Assumptions C05_doc_siblings.
+Theorem C05_doc_siblings_inverse : forall docid d, el_ok (doc_cel docid d) = true -> NoDup (cel_ids (doc_cel docid d)) ->
+  forall inh n m, In n (ids (abs_el inh (doc_cel docid d))) -> In m (ids (abs_el inh (doc_cel docid d))) ->
+    (h_fetch_following_sibling (heap_doc docid d) ftrue ftrue n = Ok (Some m)
+     <-> h_fetch_preceding_sibling (heap_doc docid d) ftrue ftrue m = Ok (Some n)).
+Proof. exact doc_siblings_inverse. Qed.
+Print Assumptions C05_doc_siblings_inverse.
+(* a root-level node (a child of the virtual document node) has no parent, no index, depth 0 and no ancestors *)
+Theorem C05_doc_toplevel : forall docid d, el_ok (doc_cel docid d) = true -> NoDup (cel_ids (doc_cel docid d)) ->
+  forall inh D F n, In n (ids (abs_el inh (doc_cel docid d))) -> a_parent (abs_el inh (doc_cel docid d)) n = Some docid ->
+    h_parent (heap_doc docid d) n = Ok None /\ h_index (heap_doc docid d) D n = Ok None
+    /\ h_depth (heap_doc docid d) D n = Ok 0%nat /\ h_iterate_ancestors (heap_doc docid d) D F n = Ok [].
+Proof. exact doc_toplevel. Qed.
+Print Assumptions C05_doc_toplevel.
+(* every node of a document: parent, ancestors, children and descendants are those of the virtual tree without the
+   virtual document node *)
+Theorem C05_doc_parent : forall docid d, el_ok (doc_cel docid d) = true -> NoDup (cel_ids (doc_cel docid d)) ->
+  forall inh n, In n (ids (abs_el inh (doc_cel docid d))) ->
+    c_parent (c_fuel_h (heap_doc docid d)) (heap_doc docid d) n = Ok (patchopt docid (a_parent (abs_el inh (doc_cel docid d)) n)).
+Proof. exact D_parent. Qed.
+Print Assumptions C05_doc_parent.
+Theorem C05_doc_ancestors : forall docid d, el_ok (doc_cel docid d) = true -> NoDup (cel_ids (doc_cel docid d)) ->
+  forall inh D F n, In n (ids (abs_el inh (doc_cel docid d))) -> n <> docid ->
+    h_iterate_ancestors (heap_doc docid d) D F n = Ok (filter F (removelast (a_ancestors (abs_el inh (doc_cel docid d)) n))).
+Proof. exact doc_ancestors. Qed.
+Print Assumptions C05_doc_ancestors.
+Theorem C05_doc_descendants : forall docid d, el_ok (doc_cel docid d) = true -> NoDup (cel_ids (doc_cel docid d)) ->
+  forall inh D F n, In n (ids (abs_el inh (doc_cel docid d))) ->
+    h_iterate_descendants (heap_doc docid d) D F n = Ok (filter (fand D F) (a_descendants (abs_el inh (doc_cel docid d)) n)).
+Proof. exact doc_descendants. Qed.
+Print Assumptions C05_doc_descendants.
+(* non-vacuity: <!--p--><r>a</r><!--e--> ; p = 1, r = 2, a = 3, e = 4, virtual document node 9 *)
+Definition ex_doc : cdoc :=
+  {| d_pro := [CEl 1%N (KComment []) None no_chain []];
+     d_root := CEl 2%N (KTag [] [114%N] []) None {| ch_head := Some 3%N; ch_slot := Some [97%N]; ch_app := [] |} [];
+     d_epi := [CEl 4%N (KComment []) None no_chain []] |}.
+Example C05_doc_example :
+  el_ok (doc_cel 9%N ex_doc) = true /\ nodupb (cel_ids (doc_cel 9%N ex_doc)) = true
+  /\ h_fetch_following_sibling (heap_doc 9%N ex_doc) ftrue ftrue 2%N = Ok (Some 4%N)
+  /\ h_fetch_preceding_sibling (heap_doc 9%N ex_doc) ftrue ftrue 2%N = Ok (Some 1%N)
+  /\ h_parent (heap_doc 9%N ex_doc) 4%N = Ok None /\ h_depth (heap_doc 9%N ex_doc) ftrue 4%N = Ok 0%nat
+  /\ h_iterate_ancestors (heap_doc 9%N ex_doc) ftrue ftrue 3%N = Ok [2%N].
+Proof. vm_compute. repeat split; reflexivity. Qed.
 
 (* the relations of the one tree agree with each other (the statement of the property, on the plain tree) *)
 Theorem C05_consistency : forall t, NoDup (ids t) -> forall n, In n (ids t) ->
@@ -245,10 +318,9 @@ Example C05_example_descendants :
 Proof. vm_compute. repeat split; reflexivity. Qed.
 
 (* NOT covered by theorem (modelled in Conc/CNav.v, compared with the code and searched directly on every run):
-   - traverse_bf_ltr_ttb under an ambient filter (it walks level by level through visible children only and applies the
-     passed filters to the given root too); traverse_df_ltr_ttb (C05_one_tree) and traverse_df_ltr_btt
-     (C05_traverse_df_btt_ambient) are stated exactly for every ambient filter;
-   - the sorter and `index` paths under an ambient filter (indexes are then positions among the visible siblings;
-     a hidden tag node raises InvalidCodePath);
-   - root-level siblings of a document (prologue / epilogue comments and PIs; model: `heap_doc`) and DETACHED text nodes
-     (model: `heap_loose`): outside `cel`; both are covered by the check (correspondence and direct search), not by a theorem. *)
+   - the sorter when a hidden node holds an offered node (it raises InvalidCodePath at the first such node; modelled,
+     compared, no theorem about which node raises first);
+   - documents with root-level siblings (model: `heap_doc`): siblings, parent, index / depth / ancestors of the root-level
+     nodes, ancestors, children and descendants of all nodes are covered (the C05_doc_ theorems); the following / preceding axes,
+     index and depth of the inner nodes, full_text, the traversers and the sorter of a document are covered by the check only;
+   - DETACHED text nodes (model: `heap_loose`): covered by the check (correspondence and direct search), not by a theorem. *)
